@@ -1051,7 +1051,33 @@ def translated_through_table(v, depth=0):
     return None
 
 
+REORDERING = ('sorted', 'reversed', 'set', 'frozenset')
+
+
+def reordered(v, depth=0):
+    """name of the builtin that rearranges (or dedups) the sequence attribute the composer writes, else None"""
+    if depth > 3 or not isinstance(v, Sym):
+        return None
+    if v.op in REORDERING and v.args and any(isinstance(x, SelfV) for x in v.args[:1]):
+        return v.op
+    if v.op in ('list', 'tuple', 'iter') and v.args:
+        return reordered(v.args[0], depth + 1)
+    return None
+
+
+def compare_order(cmpn):
+    """a repeated element is written in the order the object holds its items: the parser appends them as they come, so a composer
+    that sorts (reverses, dedups) them gives other bytes than were parsed and another object than was composed"""
+    for a, b in cmpn.pairs:
+        if b.kind in ('repeat', 'array', 'narray') or a.kind in ('repeat', 'array', 'narray'):
+            how = reordered(b.val)
+            if how:
+                cmpn.diffs.append(Diff('binding', 'the composer writes %s, the parser keeps the items in wire order: a sequence that is not in that '
+                                       'order is not reproduced byte for byte, and does not come back from its own bytes' % show(b.val)[:60], a, b))
+
+
 def compare_bindings(cmpn, presult, cls, model):
+    compare_order(cmpn)
     binds = parse_bindings(presult, cls, model)
     for a, b in cmpn.pairs:
         if a.key is None or a.op is None or getattr(a.op, 'target', None) is None:
